@@ -295,17 +295,20 @@ impl ConnectionState {
             AMQPFrame::Method(n, AMQPClass::Basic(AmqpBasic::CancelOk(cancel_ok))) => {
                 let slot = slot_get_mut(inner, n)?;
                 let consumer = slot.consumers.remove(&cancel_ok.consumer_tag);
+                // Tell the consumer first: the caller (often Consumer::drop) is blocked
+                // until we answer it and may drop the consumer's receiver the moment we
+                // do; sending to a dropped receiver would end the whole connection.
+                if let Some(tx) = consumer {
+                    send(&tx, ConsumerMessage::ClientCancelled)?;
+                }
+                #[cfg(amiquip_verif)]
+                super::verif_probe::sched_point(2);
                 send(
                     &slot.tx,
                     Ok(ChannelMessage::Method(AMQPClass::Basic(
                         AmqpBasic::CancelOk(cancel_ok),
                     ))),
                 )?;
-                #[cfg(amiquip_verif)]
-                super::verif_probe::sched_point(2);
-                if let Some(tx) = consumer {
-                    send(&tx, ConsumerMessage::ClientCancelled)?;
-                }
             }
             // Server beginning delivery of content to a consumer.
             AMQPFrame::Method(n, AMQPClass::Basic(AmqpBasic::Deliver(deliver))) => {
